@@ -565,6 +565,28 @@ func (r *R) nextBlock(ctx sdk.Context, dt int64) (sdk.Context, bool) {
 	return ctx, panicked
 }
 
+// GenesisState implements hx.GenesisStater: the part of the projection C12 says must survive an export /
+// import round trip (definitions, bindings with pricing, owner indexes, withdraw addresses, request contexts);
+// requests, responses, volumes, earned-fee tallies and the batch queues are documented as not exported.
+func (r *R) GenesisState(ctx sdk.Context) string {
+	var keep []string
+	for _, f := range strings.Fields(r.state(ctx)) {
+		for _, k := range []string{"defs=", "binds=", "own=", "ownp=", "wd=", "ctxs="} {
+			if strings.HasPrefix(f, k) {
+				keep = append(keep, f)
+			}
+		}
+	}
+	return strings.Join(keep, " ")
+}
+
+// CloseBlock implements hx.BlockCloser: exports are taken at block boundaries (the real end blocker at the
+// current height, then the begin blocker of the next one).
+func (r *R) CloseBlock(ctx sdk.Context) sdk.Context {
+	ctx, _ = r.nextBlock(ctx, 5)
+	return ctx
+}
+
 func (r *R) Exec(ctx sdk.Context, line string) (sdk.Context, string) {
 	f := strings.Fields(line)
 	a := hx.Args(f[2:])
